@@ -1,12 +1,259 @@
 import Driver.Util
-/-! Driver section for C09 (stub until the model is online). -/
+import RxnModel.Model.Files
+/-!
+Driver section for C09: trace validation of real dkv instances against `Model/Files.lean`.
+Input lines are `op ## impl-output`. Change sets of flushes/compactions, WAL names and loaded documents are read from
+the implementation's output (mechanism) and must be enabled steps of the model; which cleanups run at a `gc` point,
+what they decide, which files disappear and whether a needed file is missing are derived by the model alone.
+A deletion of a file in the property's needed set is printed as `model #spec spec [#kf Dnn]`.
+-/
 namespace Driver.C09
-open Rxn Driver
+open Rxn Driver Rxn.Files
 
-def step (st : Unit) : List String → Unit × String
+structure St where
+  s : State := {}
+  modes : List String := []
+  kf : String := ""
+
+def sortStr (xs : List String) : List String := (xs.toArray.qsort (· < ·)).toList
+
+def joinC (xs : List String) : String := if xs.isEmpty then "-" else joinWith "," xs
+
+def parseRange (x : String) : KGRange :=
+  match x.splitOn "-" with
+  | [a, b] => ⟨natOr a, natOr b⟩
+  | _ => ⟨0, 0⟩
+
+def parseTbl (x : String) : Option Tbl :=
+  match x.splitOn ":" with
+  | [u, lo, hi] => some ⟨u, natOr lo, natOr hi⟩
+  | _ => none
+
+def parseList (x : String) : List String := if x == "-" || x == "" then [] else x.splitOn ","
+
+def showTbl (t : Tbl) : String := t.uri ++ ":" ++ toString t.lo ++ ":" ++ toString t.hi
+
+def field (ws : List String) (key : String) : String :=
+  match ws.find? (fun w => w.startsWith (key ++ "=")) with
+  | some w => (w.drop (key.length + 1)).toString
+  | none => ""
+
+def splitHint (ws : List String) : List String × List String :=
+  let i := ws.idxOf "##"
+  (ws.take i, ws.drop (i + 1))
+
+def filePath : File → String
+  | .sst p => p
+  | .wal p => p
+
+def aliveAt (st : St) (i : Nat) : Bool :=
+  match st.s.insts[i]? with
+  | some x => x.life = .alive
+  | none => false
+
+def modeOf (st : St) (s : State) (gen : Nat) (r : KGRange) : String :=
+  match s.insts.findIdx? (fun x => x.life = .alive ∧ x.gen = gen ∧ x.range = r) with
+  | some j => st.modes.getD j "truthful"
+  | none => "err"
+
+/-- what the neighbours of instance `x` answer about table `u` right now -/
+def answersFor (st : St) (s : State) (x : Inst) (u : Path) : List Ans :=
+  x.nbrs.map fun r =>
+    match modeOf st s x.gen r with
+    | "truthful" => truthful s x.gen u r
+    | "hang" => .hang
+    | _ => .err
+
+structure GcAcc where
+  s : State
+  lines : List String := []
+  /-- (uri, kf id) of deletions that hit the needed set -/
+  bad : List (String × String) := []
+
+def applyEvent (s : State) (i : Nat) (ev : String) : Option State :=
+  if ev.startsWith "f+" then
+    match parseTbl (ev.drop 2).toString with
+    | some t => step s (.flush i t)
+    | none => none
+  else if ev.startsWith "c-" then
+    match ((ev.drop 2).toString).splitOn "+" with
+    | [rm, add] => step s (.compact i (parseList rm) ((parseList add).filterMap parseTbl))
+    | _ => none
+  else none
+
+/-- does anybody whose key-group range overlaps the table still hold it (a running instance's level list, or a
+job-retained checkpoint written by such an instance)? If only out-of-range holders are left the deletion is D34. -/
+def inRangeHolder (s : State) (i : Nat) (t : Tbl) : Bool :=
+  let overl := fun (j : Nat) => match s.insts[j]? with
+    | some y => Gen.kgOverlaps y.range t.span
+    | none => true
+  ((List.range s.insts.length).any fun j => j != i && overl j && (match s.insts[j]? with
+      | some y => y.life = .alive && (uris y.current).contains t.uri
+      | none => false)) ||
+  s.retained.any fun h => (uris h.tables).contains t.uri && (h.writer == i || overl h.writer)
+
+def collectOne (st : St) (need : List File) (acc : GcAcc) (i : Nat) (u : Path) (isCreated : Bool) : GcAcc :=
+  match acc.s.insts[i]? with
+  | none => acc
+  | some x =>
+    let ans := answersFor st acc.s x u
+    match step acc.s (.collect i u ans) with
+    | none => acc
+    | some s' =>
+      let deleted := acc.s.files.contains (.sst u) && !s'.files.contains (.sst u)
+      let dec :=
+        if isCreated then (if Facts.c09CreatedDeletes == 1 then "del" else "keep")
+        else match x.loaded.find? (fun t => t.uri == u) with
+          | some t => if decision x.range t (x.nbrs.zip ans) = .delete ∨ Facts.c09LoadedGuarded ≠ 1 then "del" else "keep"
+          | none => "keep"
+      let line := toString i ++ ":" ++ u ++ ":" ++ (if isCreated then "c" else "l") ++ ":" ++ dec
+      let bad :=
+        if deleted && need.contains (.sst u) then
+          let kf :=
+            if isCreated || x.life = .released then "D25"
+            else match x.loaded.find? (fun t => t.uri == u) with
+              | some t => if inRangeHolder acc.s i t then "" else "D34"
+              | none => ""
+          [(u, kf)]
+        else []
+      { s := s', lines := acc.lines ++ [line], bad := acc.bad ++ bad }
+
+def gcInst (st : St) (need : List File) (acc : GcAcc) (i : Nat) : GcAcc :=
+  match acc.s.insts[i]? with
+  | none => acc
+  | some x =>
+    let cs := x.created.filter (fun u => x.unreachable u)
+    let ls := (x.loaded.filter (fun t => x.unreachable t.uri && !x.created.contains t.uri)).map (·.uri)
+    let acc := cs.foldl (fun a u => collectOne st need a i u true) acc
+    ls.foldl (fun a u => collectOne st need a i u false) acc
+
+def withSpec (model spec kf : String) : String :=
+  if model == spec then model else model ++ " #spec " ++ spec ++ (if kf == "" then "" else " #kf " ++ kf)
+
+def pickKf (bad : List (String × String)) : String :=
+  if bad.any (fun b => b.2 == "") then "" else
+  if bad.any (fun b => b.2 == "D25") then "D25" else
+  match bad with
+  | b :: _ => b.2
+  | [] => ""
+
+def step (st : St) (ws : List String) : St × String :=
+  let (op, hint) := splitHint ws
+  match op with
+  | "open" :: rg :: rest =>
+    let range := parseRange rg
+    let gen := natOr (field rest "gen")
+    let nbrs := (parseList (field rest "nbrs")).map parseRange
+    let from_ := field rest "from"
+    let act : Act :=
+      if from_ == "none" || from_ == "" then .openFresh range gen nbrs
+      else match from_.splitOn ":" with
+        | [w, id] => .openFrom range gen nbrs (natOr w) (natOr id)
+        | _ => .openFresh range gen nbrs
+    match Files.step st.s act with
+    | none => (st, "no-such-checkpoint")
+    | some s' =>
+      let idx := st.s.insts.length
+      match s'.insts[idx]? with
+      | none => (st, "bad-state")
+      | some x =>
+        let wals := match x.ckpts with
+          | c :: _ => c.wals
+          | [] => []
+        ({ st with s := s', modes := st.modes ++ ["truthful"] },
+          "ok " ++ toString idx ++ " tables=" ++ joinC (sortStr (x.current.map showTbl)) ++ " wals=" ++ joinC (sortStr wals))
+  | ["write", i, _, _, _] =>
+    let i := natOr i
+    if !aliveAt st i then (st, "not-alive") else
+    let cur := match st.s.insts[i]? with
+      | some x => uris x.current
+      | none => []
+    if cur.any (fun u => !st.s.files.contains (.sst u)) then (st, "files-missing") else
+    match hint with
+    | ["ok", evs] =>
+      let events := if evs == "-" then [] else evs.splitOn ";"
+      let r := events.foldl (fun (acc : Option State × String) ev =>
+        match acc.1 with
+        | none => acc
+        | some s => match applyEvent s i ev with
+          | some s' => (some s', acc.2)
+          | none => (none, ev)) (some st.s, "")
+      match r.1 with
+      | some s' => ({ st with s := s' }, "ok " ++ evs)
+      | none => (st, "disabled " ++ r.2)
+    | _ => (st, "ok ?")
+  | ["ckpt", i, id] =>
+    let i := natOr i
+    if !aliveAt st i then (st, "not-alive") else
+    let wal := field hint "wal"
+    match Files.step st.s (.ckpt i (natOr id) wal) with
+    | none => (st, "disabled")
+    | some s' =>
+      let cur := match st.s.insts[i]? with
+        | some x => uris x.current
+        | none => []
+      ({ st with s := s' }, "ok wal=" ++ wal ++ " tables=" ++ joinC (sortStr cur))
+  | ["jobdrop", k] =>
+    match Files.step st.s (.jobDrop (natOr k)) with
+    | none => (st, "disabled")
+    | some s' => ({ st with s := s' }, "ok")
+  | ["retain", i, ids] =>
+    let i := natOr i
+    if !aliveAt st i then (st, "not-alive") else
+    let ids := (parseList ids).map natOr
+    match st.s.insts[i]? with
+    | none => (st, "not-alive")
+    | some x =>
+      if (droppedOf x.ckpts ids).any (fun c => st.s.retained.any (fun h => h.id == c.id)) then (st, "job-still-retains") else
+      if keptOf x.ckpts ids == [] then (st, "panic") else
+      match Files.step st.s (.retain i ids) with
+      | none => (st, "disabled")
+      | some s' =>
+        let gone := (st.s.files.filter (fun f => !s'.files.contains f)).map filePath
+        let need := needed st.s
+        let bad := gone.filter (fun p => need.contains (.wal p))
+        let model := "ok deleted=" ++ joinC (sortStr gone)
+        let spec := "ok deleted=" ++ joinC (sortStr (gone.filter (fun p => !bad.contains p)))
+        ({ st with s := s' }, withSpec model spec "")
+  | ["snap", i] =>
+    match Files.step st.s (.snap (natOr i)) with
+    | none => (st, "not-alive")
+    | some s' => ({ st with s := s' }, "ok")
+  | ["unsnap", i, k] =>
+    match Files.step st.s (.unsnap (natOr i) (natOr k)) with
+    | none => (st, "not-alive")
+    | some s' => ({ st with s := s' }, "ok")
+  | ["crash", i] =>
+    match Files.step st.s (.crash (natOr i)) with
+    | none => (st, "not-alive")
+    | some s' => ({ st with s := s' }, "ok")
+  | ["release", i] =>
+    match Files.step st.s (.release (natOr i)) with
+    | none => (st, "not-alive")
+    | some s' => ({ st with s := s' }, "ok")
+  | ["mode", i, m] =>
+    let i := natOr i
+    if i < st.modes.length then ({ st with modes := st.modes.set i m }, "ok") else (st, "bad-op")
+  | ["gc"] =>
+    let need := needed st.s
+    let acc := (List.range st.s.insts.length).foldl (fun a i => gcInst st need a i) { s := st.s }
+    let gone := ((st.s.files.filter (fun f => !acc.s.files.contains f)).map filePath)
+    let badUris := acc.bad.map (·.1)
+    let model := "ok cleanups=" ++ joinC (sortStr acc.lines) ++ " deleted=" ++ joinC (sortStr gone)
+    let specLines := acc.lines.map fun l =>
+      match l.splitOn ":" with
+      | [i, u, k, d] => if badUris.contains u && d == "del" then i ++ ":" ++ u ++ ":" ++ k ++ ":keep" else l
+      | _ => l
+    let spec := "ok cleanups=" ++ joinC (sortStr specLines) ++ " deleted=" ++ joinC (sortStr (gone.filter (fun p => !badUris.contains p)))
+    let kf := pickKf acc.bad
+    ({ st with s := acc.s, kf := if acc.bad.isEmpty then st.kf else kf }, withSpec model spec kf)
+  | ["files"] => (st, "ok " ++ joinC (sortStr (st.s.files.map filePath)))
+  | ["missing"] =>
+    let m := (missing st.s).map filePath
+    if m.isEmpty then (st, "ok") else (st, withSpec ("missing " ++ joinWith "," (sortStr m.eraseDups)) "ok" st.kf)
   | _ => (st, "bad-op")
 
 def handle (lines : Array String) (i : Nat) (out : Array String) : Nat × Array String :=
-  runLines step () lines i out
+  runLines step {} lines i out
 
 end Driver.C09
